@@ -317,3 +317,42 @@ def run_newruntime(P, rep, rule="R-NEWRUNTIME"):
         rep.viol(rule, "register types", "-", "new register types %s are not in the per-render state ledger" % sorted(extra))
     else:
         rep.ok(rule, "register types", "-", "Registers::get_mut instantiated at %s" % sorted(seen))
+
+
+# ---------------------------------------------------------------------------------------
+# R-ARGEVAL: expressions are evaluated against the runtime the function was given
+
+def run_argeval(P, rep, rule="R-ARGEVAL"):
+    """Every Expression / Variable / FilterChain (try_)evaluate call in render-time workspace code takes, as its runtime,
+    the function's own runtime parameter (or the closure's captured one) — never a scope layer built inside the function.
+    Arguments of include/render, loop attributes, conditions, assign values are therefore all read in the caller's scope."""
+    n = 0
+    bad = 0
+    for fn in sorted(P.fns.values(), key=lambda f: f.id):
+        if fn.crate not in ("liquid_lib", "liquid_core") or "::test" in fn.id:
+            continue
+        k = 0
+        for bi, t in P.calls(fn):
+            f = t.get("f")
+            if not f:
+                continue
+            last = f["id"].rsplit("::", 1)[1]
+            nm = f["name"]
+            if last not in ("evaluate", "try_evaluate") or not ("Expression" in nm or "Variable" in nm or "FilterChain" in nm):
+                continue
+            for a in t["args"]:
+                ol = op_local(a)
+                if not ol or "dyn liquid_core::runtime::runtime::Runtime" not in P.local_ty(fn, ol[0]):
+                    continue
+                n += 1
+                src = unsize_source(P, fn, ol[0])
+                if src[0] == "passthrough" and isinstance(src[1], int) and 1 <= src[1] <= fn.argc:
+                    continue
+                bad += 1
+                rep.viol(rule, "%s %s#%d" % (fn.key, last, k), P.where(fn, t["line"]),
+                         "`%s` is evaluated against %s instead of the runtime this function was given: the expression is not read in the caller's scope"
+                         % (nm.rsplit("::", 2)[-2] + "::" + last, ("a locally built " + str(src[1])) if src[0] in ("unsize", "ref") else src[0]))
+                k += 1
+    if not bad:
+        rep.ok(rule, "evaluate sites", "-", "%d evaluate/try_evaluate calls; each takes the function's own runtime parameter / captured runtime" % n)
+    rep.count(rule + ".sites", n)
